@@ -25,6 +25,9 @@ TypeEdits == [ e : {"int_to_long", "int_to_float", "int_to_string", "float_to_do
 DefEdits  == [ e : {"identity", "reorder_definitions", "rename_with_alias", "add_unused_type", "add_comments",
                     "add_optional_field", "remove_optional_field", "reorder_fields", "add_alias", "remove_alias",
                     "add_stream_step", "add_vector_step", "add_optional_step",
+                    \* the added step's type is a vector / optional by way of a named alias, an alias of an alias, a generic alias
+                    "add_aliased_vector_step", "add_alias_of_alias_vector_step", "add_generic_alias_vector_step",
+                    "add_aliased_optional_step", "add_generic_alias_optional_step", "add_vector_of_records_step",
                     "add_required_field", "remove_required_field", "remove_first_required_field", "remove_last_required_field",
                     "remove_last_two_fields", "add_first_required_field", "remove_last_optional_field",
                     "remove_step", "reorder_steps", "enum_add_value", "enum_remove_value", "enum_change_value",
@@ -34,6 +37,8 @@ Class(e) ==
   CASE e \in {"identity", "reorder_definitions", "rename_with_alias", "add_unused_type", "add_comments"} -> "meaning_preserving"
     [] e \in {"add_optional_field", "remove_optional_field", "reorder_fields", "add_alias", "remove_alias",
               "add_stream_step", "add_vector_step", "add_optional_step", "enum_add_value", "flags_add_value",
+              "add_aliased_vector_step", "add_alias_of_alias_vector_step", "add_generic_alias_vector_step",
+              "add_aliased_optional_step", "add_generic_alias_optional_step", "add_vector_of_records_step",
               "remove_last_optional_field"} -> "compatible"
     [] e \in {"change_field_type_partial"} -> "partial"
     [] e \in {"int_to_long", "int_to_float", "int_to_string", "float_to_double", "string_to_int", "make_optional", "optional_to_union",
